@@ -239,3 +239,18 @@ Theorem C04_the_emitted_sound_table_is_read_back :
     In (p, N.of_nat k) (wav_decode L v).
 Proof. exact an_emitted_sound_table_reads_back. Qed.
 Print Assumptions C04_the_emitted_sound_table_is_read_back.
+
+(* ... and the WHOLE emitted location table, decoded again by a later load: it decodes, and at every number whose slot is not all
+   zero that load finds the location that was written there - rectangle, name, elevation flags - carrying that number *)
+Theorem C04_the_saved_location_table_is_read_back :
+  forall L ls v,
+    (N.of_nat (length (sl_by_id L)) <= 1000000)%N -> mrgn_encode L ls = Ok v ->
+    (forall l, In l ls -> length (l_elev l) = 6%nat) ->
+    exists ls', mrgn_decode L v = Ok ls' /\
+      forall k l slot, assocN_last (N.of_nat k + 1)%N (by_idx ls) = Some l ->
+        nth_error (vlist "_locations" v) k = Some slot -> loc_is_unused slot = false ->
+        assocN_last (N.of_nat k + 1)%N (by_idx ls') =
+          Some {| l_x1 := l_x1 l; l_y1 := l_y1 l; l_x2 := l_x2 l; l_y2 := l_y2 l; l_name := l_name l;
+                  l_idx := Some (N.of_nat k + 1)%N; l_elev := l_elev l; l_oid := 0%N |}.
+Proof. exact saved_location_table_reads_back. Qed.
+Print Assumptions C04_the_saved_location_table_is_read_back.
